@@ -83,7 +83,7 @@ PROPS = {
         "anchors": [f"{ICN}::<K, F>::validate", f"{ICN}::<K, F>::map_indexes", f"{ICN}::<K, {FFN}<K>>::flatmap",
                     "IndexedCoproductFiniteFunctionIterator<K> as std::iter::Iterator>::next",
                     "IndexedCoproductSemifiniteFunctionIterator<K, T> as std::iter::Iterator>::next"],
-        "rules": ["ITER"], "level": "proof",
+        "rules": ["NONEXH"], "level": "proof",
     },
     "C12": {
         "clause": "NARROW: typing F(A) -> F(B) of functor application as label-array term equalities under the "
@@ -108,14 +108,14 @@ PROPS = {
         "anchors": ["strict::layer::layer", "strict::layer::layered_operations", "strict::graph::kahn",
                     "strict::graph::operation_adjacency", "strict::graph::converse",
                     "strict::graph::sparse_relative_indegree", "strict::graph::dense_relative_indegree"],
-        "rules": ["DEP"], "level": "proof",
+        "rules": [], "level": "proof",
     },
     "C16": {
         "clause": "NARROW: eval refuses exactly when layer reports an unvisited operation, otherwise returns "
                   "(no panic) under the documented apply contract; result length |f.t|",
         "entries": ["strict::eval::"],
         "anchors": ["strict::eval::eval", "strict::eval::eval_order", "strict::layer::layer"],
-        "rules": ["GUARD", "DEP"], "level": "proof",
+        "rules": [], "level": "proof",
     },
     "C17": {
         "clause": "NARROW: totality of is_acyclic, is_monogamous, in_degree, out_degree for every well-formed "
@@ -125,7 +125,7 @@ PROPS = {
                     f"{S_H}::<K, O, A>::in_degree", f"{S_H}::<K, O, A>::out_degree"],
         "anchors": [f"{S_OH}::<K, O, A>::is_monogamous", f"{S_H}::<K, O, A>::in_degree", f"{S_H}::<K, O, A>::out_degree",
                     "strict::graph::node_adjacency", "strict::graph::kahn"],
-        "rules": ["DEP"], "level": "proof",
+        "rules": [], "level": "proof",
     },
     "C18": {
         "clause": "NARROW: validation requires all four naturality comparisons and names the failed one; "
@@ -134,7 +134,7 @@ PROPS = {
         "anchors": ["strict::hypergraph::arrow::HypergraphArrow::<K, O, A>::validate",
                     "strict::hypergraph::arrow::HypergraphArrow::<K, O, A>::is_monomorphism",
                     "strict::hypergraph::arrow::HypergraphArrow::<K, O, A>::is_convex_subgraph"],
-        "rules": ["ERRMAP", "DEP", "GUARD"], "level": "proof",
+        "rules": [], "level": "proof",
     },
 }
 
